@@ -120,46 +120,78 @@ def check_anomaly(ctx):
     ctx.ob("C14.2", site, ok, "climatology operand = Fcst of the last input through the same axis slice", loc=prog.loc(m, clim_assign[0]["node"]),
            msg="the climatology operand is %s" % [str(v)[:200] for v in got],
            sample={"rule": "C14.2", "operand": [str(v)[:200] for v in got]})
-    # the anomaly assignments inside the field loop (first unrolled iteration)
+    # the value of the sliced field at the end of the first unrolled iteration, decided by cases: the conditions that occur in it are
+    # fixed to the truth values of each scenario and the resulting value is compared with value -/ climatology (or the value itself)
     currs = [a for a in trace.assigns(ev, "curr") if a["iter"] == (1,)]
-    ctx.need(len(currs) >= 3, "%s: assignments of the sliced field not found" % site)
+    ctx.need(len(currs) >= 2, "%s: assignments of the sliced field not found" % site)
     base = currs[0]["value"]
-    clim_var = None
-    for a in reversed(clim_assign):
-        pass
-    # the value of `clim` seen in the loop is the merged ifexp(doClim, applied, 0)
-    sub = [a for a in currs[1:] if q.has_cond(a["conds"], lambda c: "str:'subtract'" in c.key(), True)]
-    div = [a for a in currs[1:] if q.has_cond(a["conds"], lambda c: "str:'subtract'" in c.key(), False)]
-    ctx.need(sub and div, "%s: subtract / divide branches not recognised" % site)
-    for a in sub:
-        d = base - a["value"]
-        ok = isinstance(d, Rat) and any(x.func == "self._apply_axis" for x in q.atoms(d)) and \
-            (d.equals(applied) or (q.top(d, "ifexp") is not None and q.top(d, "ifexp").args[1].equals(applied) and q.top(d, "ifexp").args[2].is_zero()))
-        ctx.ob("C14.2", site, ok, "subtract: anomaly = value - climatology", loc=prog.loc(m, a["node"]),
-               msg="with clim_type 'subtract' the field becomes %s" % str(a["value"])[:200])
-    for a in div:
-        try:
-            r = base / a["value"]
-        except form.Undefined:
-            r = None
-        ok = isinstance(r, Rat) and (r.equals(applied) or (q.top(r, "ifexp") is not None and q.top(r, "ifexp").args[1].equals(applied)))
-        ctx.ob("C14.2", site, ok, "divide: anomaly = value / climatology", loc=prog.loc(m, a["node"]),
-               msg="with clim_type 'divide' the field becomes %s" % str(a["value"])[:200])
-    # applied iff the field is Obs or Fcst (and a climatology is present)
-    for a in sub + div:
-        conds = [c for c, pol in a["conds"] if pol and "call:verif.field" in c.key() and "getitem" in c.key()]
-        ok = False
-        for c in conds:
-            leaves = q.leaves(c, "and")
-            fieldtests = [l for l in leaves if l.as_atom() is not None and l.as_atom().func == "or"]
-            if fieldtests:
-                alts = q.leaves(fieldtests[0], "or")
-                keys = sorted(x.key() for x in alts)
-                ok = len(alts) == 2 and any("call:verif.field.Fcst()" in k for k in keys) and any("call:verif.field.Obs()" in k for k in keys) \
-                    and all(x.as_atom() is not None and x.as_atom().func == "cmp_eq" for x in alts)
-        ctx.ob("C14.2", site, ok, "the climatology is applied exactly to the Obs and Fcst fields", loc=prog.loc(m, a["node"]),
-               msg="the anomaly is applied under %s" % [c.key()[:160] for c in conds])
-    ctx.floor("C14.2", 5)
+    appended = [e for e in trace.calls(ev, "scores.append") if e["iter"] == (1,) and e["args"]]
+    ctx.need(len(appended) == 1, "%s: scores.append(<sliced field>) not found in the field loop" % site)
+    final = appended[0]["args"][0]
+    ctx.need(isinstance(base, Rat) and isinstance(final, Rat), "%s: the sliced field is not a value" % site)
+    leaves = {}
+    for at in final.atoms(deep=True):
+        if at.func in ("cmp_eq", "cmp_ne", "in", "notin"):
+            leaves[at.key] = at
+
+    def kind(at):
+        k = at.key
+        if "$self._clim_type" in k and "str:'subtract'" in k:
+            return "subtract"
+        if "$self._clim" in k and "$None" in k and "_clim_type" not in k:
+            return "present"
+        if at.func in ("in", "notin") and "call:verif.field.Fcst()" in k:
+            return "fcst_requested"
+        if at.func in ("in", "notin") and "call:verif.field.Obs()" in k:
+            return "obs_requested"
+        if at.func in ("cmp_eq", "cmp_ne") and "call:verif.field.Fcst()" in k and "$i#1" in k:
+            return "is_fcst"
+        if at.func in ("cmp_eq", "cmp_ne") and "call:verif.field.Obs()" in k and "$i#1" in k and "_obs_range" not in k:
+            return "is_obs"
+        return None
+    kinds = {k: kind(at) for k, at in leaves.items()}
+    ctx.need({"subtract", "present", "is_fcst", "is_obs"} <= set(kinds.values()),
+             "%s: the conditions of the anomaly step (climatology present, field is Obs/Fcst, clim_type) were not recognised: %s" % (site, sorted(set(kinds.values()) - {None})))
+
+    def resolve(value, truth):
+        def fn(at):
+            kd = kinds.get(at.key)
+            if kd is None or kd not in truth:
+                return None
+            t = truth[kd]
+            if kd == "present":
+                t = t if at.func == "cmp_ne" else not t          # `clim is not None`
+            elif at.func in ("cmp_ne", "notin"):
+                t = not t
+            return Rat.const(1 if t else 0)
+        return form.map_atoms(value, fn)
+    scenarios = []
+    for fld in ("fcst", "obs"):
+        for typ in ("subtract", "divide"):
+            scenarios.append(("%s field, clim_type %s" % (fld, typ),
+                              {"present": True, "is_fcst": fld == "fcst", "is_obs": fld == "obs", "fcst_requested": fld == "fcst" or None,
+                               "obs_requested": fld == "obs" or None, "subtract": typ == "subtract"}, typ))
+    scenarios.append(("another field", {"present": True, "is_fcst": False, "is_obs": False, "fcst_requested": True, "obs_requested": True, "subtract": True}, None))
+    scenarios.append(("no climatology", {"present": False, "is_fcst": True, "is_obs": False, "fcst_requested": True, "obs_requested": False, "subtract": True}, None))
+    for name, truth, typ in scenarios:
+        truth = {k: v for k, v in truth.items() if v is not None}
+        for extra in ([{}] if all(k in truth for k in ("fcst_requested", "obs_requested")) else
+                      [{k: b} for k in ("fcst_requested", "obs_requested") if k not in truth for b in (True, False)]):
+            tr = dict(truth)
+            tr.update(extra)
+            try:
+                got = resolve(final, tr)
+                b0 = resolve(base, tr)
+                cl = resolve(applied, tr)
+                want = b0 if typ is None else (b0 - cl if typ == "subtract" else b0 / cl)
+                ok = got.equals(want)
+            except form.Undefined:
+                ok, got = False, None
+            ctx.ob("C14.2", site, ok, "%s: the field becomes %s" % (name, "value - climatology" if typ == "subtract" else "value / climatology" if typ == "divide" else "the value itself"),
+                   loc=prog.loc(m, currs[-1]["node"]),
+                   msg="%s (clim_type %s): the field becomes %s" % (name, "'%s'" % typ if typ else "any", str(got)[:220]),
+                   sample={"rule": "C14.2", "scenario": name, "ok": ok})
+    ctx.floor("C14.2", 7)
 
 
 def check_driver(ctx):
